@@ -918,12 +918,37 @@ func (s *Stream) parseFunctionArgs(funcExpr string, data map[string]any) ([]any,
 			} else {
 				args[i] = arg
 			}
+		} else if isBareColumnName(arg) {
+			// A column the row does not carry is NULL, like everywhere else — not the text of its name
+			// (if_null(missing, 5) returned "missing", lag(v) stored "v" for a row without v).
+			args[i] = nil
 		} else {
 			args[i] = arg
 		}
 	}
 
 	return args, nil
+}
+
+// isBareColumnName reports whether arg is written like a column reference (an identifier, possibly
+// dotted or indexed) rather than a keyword argument: true/false/null keep their meaning elsewhere.
+func isBareColumnName(arg string) bool {
+	if arg == "" {
+		return false
+	}
+	switch strings.ToLower(arg) {
+	case "true", "false", "null", "nil":
+		return false
+	}
+	for i, r := range arg {
+		switch {
+		case r == '_' || (r >= 'a' && r <= 'z') || (r >= 'A' && r <= 'Z'):
+		case i > 0 && (r >= '0' && r <= '9' || r == '.' || r == '[' || r == ']'):
+		default:
+			return false
+		}
+	}
+	return true
 }
 
 // containsExpressionOperator reports whether s contains an arithmetic or
